@@ -377,6 +377,28 @@ def rehash_rx(lib):
     return r'^(%s)$' % '|'.join(sorted({re.escape('group::rehash'), re.escape(rehash_core_path(lib))}))
 
 
+def remove_sites(lib, b, rx=r'FsCommand::remove$|^std::fs::remove_file$'):
+    """(call, params of b the removed path derives from) for the removals in b: direct ones, and those made by a helper of the same impl that
+    is handed the path (one level: `Self::remove_copy(target, e)` removes its first parameter)"""
+    out = []
+    for c in b.calls(rx):
+        out.append((c, set(backslice(b, [c.args[0]]).params)))
+    for c in b.calls(r'^dedupe::FsCommand::\w+$|^reflink::\w+$'):
+        if c.matches(rx) or not c.f.get('local'):
+            continue
+        hb = lib.body(c.path)
+        if hb is None or hb.path == b.path:
+            continue
+        for r in hb.calls(rx):
+            hp = set(backslice(hb, [r.args[0]]).params)
+            if hp and all(1 <= q <= len(c.args) for q in hp):
+                ps = set()
+                for q in hp:
+                    ps |= set(backslice(b, [c.args[q - 1]]).params)
+                out.append((c, ps))
+    return out
+
+
 def resolve_body(ctx, fn, rx):
     """`parent::{closure#N}` is looked up by content, not by number: the closure below `parent` that contains a call matching rx
     (closure numbers shift whenever another closure is added to the function)"""
